@@ -229,6 +229,18 @@ func normalizeRef(m string) string {
 func plusDecode(s string) string { return rfc3986.Decode(strings.ReplaceAll(s, "+", " ")) }
 
 func check(c Case) evid.Outcome {
+	o := check0(c)
+	if o.Violation != "" && o.Finding == "" {
+		// the engine decodes static text with html.UnescapeString; where that differs from a browser's
+		// attribute-value decoding of the same prefix the violation belongs to the known finding K-unescape
+		if dB, ok := decodeAttr(string(c.Prefix), c.Quote); ok && dB != html.UnescapeString(string(c.Prefix)) && !endsInPartialCharRef(string(c.Prefix)) && !hasWSorCtl(string(c.Prefix)) {
+			o.Finding = "K-unescape"
+		}
+	}
+	return o
+}
+
+func check0(c Case) evid.Outcome {
 	cx := ctxByID(c.Ctx)
 	if cx == nil || (c.Quote != `"` && c.Quote != `'`) || strings.Contains(string(c.Prefix)+string(c.Suffix), c.Quote) || strings.Contains(string(c.Prefix)+string(c.Suffix), "{{") {
 		return evid.Outcome{Skip: true}
@@ -386,6 +398,8 @@ var prefixPieces = []string{"https:", "http:", "HTTPS:", "https://h/", "http://h
 
 var dataDict = []string{"a", "a b", "x/y", "../z", "..", ".", "%2e%2e", "%2E.", "?a=b", "&b=2#f", "#frag", "=", "&", "&amp;", "javascript:alert(1)", "script:alert(1)", ":", "//evil/", "/\\evil", "\\", "@evil", "%", "%2", "%zz", "%41", "%2f", "%3c", "é", "\xff", "\x00", "\n", "\t", "<b>", "\"", "'", "`", "{", "|", "^", "+", "a+b", "~", "[x]", "*", "!", "$", ",", ";"}
 
+var refPieces = strs.AllCharRefSpellings("%?#/:.\\@& \t\n\r\x00\x01\x7f;=2a")
+
 func gen(t *rapid.T) Case {
 	c := Case{Ctx: ctxs[rapid.IntRange(0, len(ctxs)-1).Draw(t, "ctx")].ID, Quote: rapid.SampledFrom([]string{`"`, `"`, `'`}).Draw(t, "quote")}
 	c.Pipe = rapid.SampledFrom([]string{"", "", "", "", " | urlquery", " | html", " | print"}).Draw(t, "pipe")
@@ -395,7 +409,7 @@ func gen(t *rapid.T) Case {
 	case 1, 2:
 		c.Prefix = evid.BStr(rapid.SampledFrom([]string{"/x/", "/x?q=", "https://h/p/", "https://h/?a=1&amp;b=", "/p#", "//h/a/", "/x/.", "/x&quest;a=", "/x&num;", "about:blank#", "https://h/a.", "/a/b.js?v="}).Draw(t, "prefix"))
 	default:
-		c.Prefix = evid.BStr(strs.From(5, prefixPieces).Draw(t, "prefix"))
+		c.Prefix = evid.BStr(strs.From(5, prefixPieces, prefixPieces, refPieces).Draw(t, "prefix"))
 	}
 	c.Suffix = evid.BStr(rapid.SampledFrom([]string{"", "", "", "/s", "&amp;z=1", "#s", ".js", "/../s", "."}).Draw(t, "suffix"))
 	if rapid.Bool().Draw(t, "dictdata") {
